@@ -8,6 +8,7 @@
 # @author Davide Brunato <brunato@sissa.it>
 #
 import math
+from copy import copy
 from collections.abc import KeysView, ValuesView, ItemsView, Iterator
 from types import MappingProxyType
 from typing import Optional, Union, Any
@@ -171,7 +172,7 @@ class XPathMap(XPathFunction):
         return XPathMap(
             parser=self.parser,
             items=(
-                (k.get_atomized_operand(context), v.evaluate(context))
+                (k.get_atomized_operand(copy(context)), v.evaluate(copy(context)))
                 for k, v in zip(self._items, self._values)
             )
         )
@@ -181,18 +182,18 @@ class XPathMap(XPathFunction):
         nan_key: Union[bool, float] = False
 
         for key, value in zip(self._items, self._values):
-            k = key.get_atomized_operand(context)
+            k = key.get_atomized_operand(copy(context))
             if k is None:
                 raise self.error('XPTY0004', 'missing key value')
             elif isinstance(k, float) and math.isnan(k):
                 if nan_key is not False:
                     raise self.error('XQDY0137')
-                nan_key, _map[None] = k, value.evaluate(context)
+                nan_key, _map[None] = k, value.evaluate(copy(context))
                 continue
             elif k in _map:
                 raise self.error('XQDY0137')
 
-            v = value.evaluate(context)
+            v = value.evaluate(copy(context))
             if isinstance(v, list):
                 _map[k] = xlist(v)
             else:
